@@ -6,14 +6,15 @@ from . import _generic as g
 
 PROP = "C17"
 CORR = "vf.corr.c17"
-# header-case-variant-not-overridden (F27a) is repaired: the class maps to no finding, a recurrence is a violation
-CLASSES = {"apikey-query-dropped": "F27b", "apikey-cookie-dropped": "F27b"}
+# header-case-variant-not-overridden (F27a) and apikey-query-dropped / apikey-cookie-dropped (F27b) are repaired: no oracle class
+# maps to a finding any more, a recurrence is a violation
+CLASSES: dict[str, str] = {}
 
 
 def check(run, ctx) -> None:
     known = findings.Known(run, PROP)
     g.run_corr(run, ctx, CORR, "Http.prepareHeaders")
-    g.replay_witnesses(run, known, {"F27b": CORR})
+    g.replay_witnesses(run, known, {})
     g.run_oracle(run, ctx, known, CORR, "C17 on the real transport", CLASSES)
     known.report_unreplayed()
 
